@@ -44,11 +44,13 @@ def with_layout(arr, layout):
     return arr
 
 
-def grid_from_mesh(mesh, coord_dtype="float64", layout="C", **kw):
+def grid_from_mesh(mesh, coord_dtype="float64", layout=None, **kw):
     """Standard-form construction through Grid.from_topology (only derivations are under
     test afterwards).  coord_dtype: storage type of node_lon / node_lat; layout: memory layout of the arrays handed
     over (see with_layout; coordinates become strided views for every layout but "C")."""
     INT_DTYPE, FILL = consts()
+    if layout is None:
+        layout = mesh.get("layout", "C")  # a fifth of the generated meshes ask for a non-C layout (meshgen.finish_mesh)
     nodes = np.asarray(mesh["nodes"], float).reshape(-1, 2)
     conn = with_layout(padded_faces(mesh), layout)
     if layout != "C":
